@@ -113,3 +113,34 @@ pub fn is_failure(a: &FaultAction) -> bool {
         FaultAction::Fail | FaultAction::FailAfterMutate | FaultAction::WrongLen(_)
     )
 }
+
+/// The acceptance condition of the problem builder (the text of C18), used by the other
+/// drivers as a *precondition*: their scenarios are well-formed (at least one sample, one
+/// observation row and - if given - one weight per sample), so `build()` has to succeed.
+/// A run that ends because the library refused to build a valid problem must not count as
+/// "held": the property quantifies over all such inputs and says what the problem exposes.
+pub fn wellformed(sc: &Scenario) -> bool {
+    let n = sc.n();
+    n >= 1
+        && !sc.y.is_empty()
+        && sc.y.iter().all(|c| c.len() == n)
+        && sc.weights.as_ref().map(|w| w.len() == n).unwrap_or(true)
+        && sc.alpha0.len() == sc.model.nparams
+}
+
+pub fn expect_built(sc: &Scenario, rep: &mut crate::report::RunReport, build: &Result<(), String>, panicked: bool, who: &str) {
+    if panicked {
+        return;
+    }
+    match build {
+        Ok(()) => rep.probe("built"),
+        Err(e) => {
+            if wellformed(sc) {
+                let kind: String = e.chars().take_while(|c| c.is_ascii_alphanumeric() || *c == '_').collect();
+                rep.violate(sc, "BUILD_REJECTED", &format!("build{who}/{kind}"), format!("build() of a well-formed problem (N={}, S={}, weights {}) returned {e}", sc.n(), sc.s(), if sc.weights.is_some() { "given" } else { "none" }));
+            } else {
+                rep.probe("build_rejected_malformed_input");
+            }
+        }
+    }
+}
